@@ -293,6 +293,56 @@ fn perturb(t: &mut Tape, p: &Program) -> Option<(Program, String)> {
     Some((plant::replace_expr(&q, si, newx), kind.to_string()))
 }
 
+/// some perturbed (marked) expression is the value stored into a field of `self`, or the sibling operand of a read of one
+fn marked_meets_self_field(p: &Program) -> bool {
+    let is_self_field = |x: &Expr| match &x.kind {
+        EKind::Field(b, _) => matches!(&b.kind, EKind::Var(v) if p.var(*v).kind == VarKind::SelfVar),
+        _ => false,
+    };
+    let is_mark = |x: &Expr| matches!(x.kind, EKind::Mark(_));
+    fn scan(b: &Block, hit: &mut bool, is_self: &dyn Fn(&LValue) -> bool, is_mark: &dyn Fn(&Expr) -> bool) {
+        for s in &b.stmts {
+            match s {
+                Stmt::Assign { target, value, .. } if is_self(target) && is_mark(value) => *hit = true,
+                Stmt::Loop { body, .. } => scan(body, hit, is_self, is_mark),
+                Stmt::Block(inner) => scan(inner, hit, is_self, is_mark),
+                _ => {}
+            }
+        }
+    }
+    let target_on_self = |t: &LValue| match t {
+        LValue::Field(o, _) => matches!(&o.kind, EKind::Var(v) if p.var(*v).kind == VarKind::SelfVar),
+        _ => false,
+    };
+    let mut hit = false;
+    syltmodel::walk::walk_program(p, &mut |x| match &x.kind {
+        EKind::Lambda(def) => scan(&def.body, &mut hit, &target_on_self, &is_mark),
+        EKind::If(bs, d) => {
+            for (_, b) in bs {
+                scan(b, &mut hit, &target_on_self, &is_mark);
+            }
+            if let Some(b) = d {
+                scan(b, &mut hit, &target_on_self, &is_mark);
+            }
+        }
+        EKind::Case { arms, default, .. } => {
+            for a in arms {
+                scan(&a.body, &mut hit, &target_on_self, &is_mark);
+            }
+            if let Some(b) = default {
+                scan(b, &mut hit, &target_on_self, &is_mark);
+            }
+        }
+        EKind::Bin(_, a, b) => {
+            if (is_self_field(a) && is_mark(b)) || (is_self_field(b) && is_mark(a)) {
+                hit = true;
+            }
+        }
+        _ => {}
+    });
+    hit
+}
+
 impl Check for C02 {
     type Case = Case;
     fn id(&self) -> &'static str {
@@ -373,6 +423,18 @@ impl Check for C02 {
                     }
                 }
             });
+            // the perturbed expression is stored into / combined with a field of `self` (`self.f += <perturbed>`,
+            // `self.f = <perturbed>`, `self.f + <perturbed>`): the same missing type of `self` lets it through
+            let with_self_field = kind != "field" && marked_meets_self_field(&case.prog);
+            if with_self_field {
+                return Verdict::Violation {
+                    signature: "C02/strict-dynerror/value-meets-field-of-self/on-self".to_string(),
+                    detail: format!(
+                        "the compiler accepts this program, but executing it applies an operation to a value of the wrong type: {} ({})\nperturbation: {:?} (its value meets a field of `self`)\n--- source ---\n{}",
+                        kind, what, case.kinds, printed.text
+                    ),
+                };
+            }
             // a field error can only come from an unknown-field perturbation; when every one of them is on `self`, the other
             // perturbation of a doubly perturbed program has nothing to do with it
             let (kinds, path) = if kind == "field" && what.contains("no field zznope") && on_self && !elsewhere {
